@@ -229,9 +229,13 @@ impl Family for Batchings {
         let s = d.conv.stream();
         let cuts = match cuts_from_index(d.cut_idx, s.bytes.len()) {
             Some(c) => c,
-            None => return Ok(()), // index beyond this stream's positions
+            None => {
+                st.skipped += 1; // index beyond this stream's positions
+                return Ok(());
+            }
         };
         if cuts.iter().any(|c| *c >= s.bytes.len()) {
+            st.skipped += 1;
             return Ok(());
         }
         if !d.waits.is_empty() && d.waits.len() < self.len + 1 {
@@ -388,6 +392,76 @@ impl Family for ReplySizes {
     }
 }
 
+
+/// lock-step client whose request is large (multi-packet, in particular an exact multiple of
+/// 2^24-1 bytes with its empty closing packet): whatever read ends wherever near the request's
+/// packet headers or its last bytes, the request must be served once its last byte is delivered —
+/// the client sends nothing more until it has the reply.
+struct LargeRequests {
+    cases: Vec<(usize, Vec<usize>)>,
+}
+impl LargeRequests {
+    fn conv(size: usize) -> Conv {
+        let text: Vec<u8> = (0..size - 1).map(|i| b'a' + ((i * 5 + i / 253) % 26) as u8).collect();
+        Conv::new(vec![q(&text), ping()])
+    }
+    fn new(sizes: &[usize], max_cuts: usize) -> Self {
+        let mut cases = Vec::new();
+        for &size in sizes {
+            let s = Self::conv(size).stream();
+            let end = s.ends[1];
+            let mut cands: Vec<usize> = Vec::new();
+            for h in s.headers.iter().filter(|h| **h >= s.ends[0] && **h < end) {
+                for d in -1i64..=5 {
+                    let p = *h as i64 + d;
+                    if p > s.ends[0] as i64 && (p as usize) < end {
+                        cands.push(p as usize);
+                    }
+                }
+            }
+            for d in 1..=6 {
+                if end - d > s.ends[0] {
+                    cands.push(end - d);
+                }
+            }
+            cands.sort();
+            cands.dedup();
+            for set in subsets_upto(&cands, max_cuts) {
+                cases.push((size, set));
+            }
+        }
+        LargeRequests { cases }
+    }
+}
+impl Family for LargeRequests {
+    fn name(&self) -> String {
+        "large-requests-lock-step".into()
+    }
+    fn len(&self) -> u64 {
+        self.cases.len() as u64
+    }
+    fn max_threads(&self) -> Option<usize> {
+        Some(8)
+    }
+    fn run(&self, idx: u64, st: &mut Stats) -> Result<(), Violation> {
+        let (size, cuts) = &self.cases[idx as usize];
+        st.nontrivial += 1;
+        st.bump("large_requests_lock_step");
+        let conv = Self::conv(*size);
+        let s = conv.stream();
+        let stream = Arc::new(s.bytes.clone());
+        let waits = s.ends.clone();
+        run_sched(&conv, &s, &stream, &waits[..waits.len() - 1], cuts.clone(), st).map_err(|mut v| {
+            v.msg = format!("request of {} payload bytes, cuts {:?}: {}", size, cuts, v.msg);
+            v
+        })
+    }
+    fn describe(&self, idx: u64) -> J {
+        let (size, cuts) = &self.cases[idx as usize];
+        json!({"request_payload_bytes": size, "cuts": cuts, "client": "strict lock-step, then a PING"})
+    }
+}
+
 pub fn build(quick: bool) -> Check {
     let mut families: Vec<Box<dyn Family>> = Vec::new();
     let a = alphabet();
@@ -397,22 +471,24 @@ pub fn build(quick: bool) -> Check {
         families.push(Box::new(Batchings { alpha: a.clone(), len: 2, max_cuts: 1 }));
         families.push(Box::new(SmallComps::new(14)));
         families.push(Box::new(ReplySizes { max_w: 20000 }));
+        families.push(Box::new(LargeRequests::new(&[70_000, MAXP - 1, MAXP, 2 * MAXP], 1)));
     } else {
         families.push(Box::new(Batchings { alpha: a.clone(), len: 5, max_cuts: 0 }));
         families.push(Box::new(Batchings { alpha: a.clone(), len: 2, max_cuts: 2 }));
         families.push(Box::new(Batchings { alpha: a.clone(), len: 4, max_cuts: 1 }));
         families.push(Box::new(SmallComps::new(15)));
         families.push(Box::new(ReplySizes { max_w: 140000 }));
+        families.push(Box::new(LargeRequests::new(&[4092, 70_000, MAXP - 1, MAXP, MAXP + 1, 2 * MAXP - 1, 2 * MAXP, 2 * MAXP + 1], 2)));
     }
     Check {
         id: "C12",
         level: "model_checking",
-        rule: "command lists over {query->OK, query->resultset, prepare, execute, long data, close, ping, init db, field list} (after a fixed PREPARE) x all batchings (the client waits for all owed replies at any subset of message boundaries, from lock-step to fully pipelined; it never sends before the greeting) x cut sets of <= 2 positions; plus all 2^n compositions of small pipelined streams; plus a strict lock-step client receiving replies of every size 0..20000 (140000 in thorough) bytes as one cell and as many small rows (output-side buffering thresholds). Invariant at every read(): the flushed output holds a complete reply (strictly decoded) for every message fully delivered so far. A read while the waiting client holds back its bytes is a hang.".into(),
+        rule: "command lists over {query->OK, query->resultset, prepare, execute, long data, close, ping, init db, field list} (after a fixed PREPARE) x all batchings (the client waits for all owed replies at any subset of message boundaries, from lock-step to fully pipelined; it never sends before the greeting) x cut sets of <= 2 positions; plus all 2^n compositions of small pipelined streams; plus a strict lock-step client receiving replies of every size 0..20000 (140000 in thorough) bytes as one cell and as many small rows (output-side buffering thresholds); plus a strict lock-step client whose request is 70 KB .. 2*(2^24-1) bytes (exact multiples with their empty closing packet included) under <= 1 (thorough: 2) cuts around every packet header and the last six bytes of the request. Invariant at every read(): the flushed output holds a complete reply (strictly decoded) for every message fully delivered so far. A read while the waiting client holds back its bytes is a hang.".into(),
         assumptions: vec!["bytes written but not flushed are invisible to the simulated client".into()],
         bounds: json!({"max_commands": if quick {4} else {5}, "max_cuts": 2}),
         exhaustive: true,
         caps_hit: vec![],
         families,
-        required: vec!["mixed_pipelining", "fully_pipelined", "lock_step", "small_compositions", "reply_sizes"],
+        required: vec!["mixed_pipelining", "fully_pipelined", "lock_step", "small_compositions", "reply_sizes", "large_requests_lock_step"],
     }
 }
